@@ -64,10 +64,10 @@ func (c *c13Client) Ping(ctx vctx.Context) error {
 func (c *c13Client) Connect(vctx.Context, string, ...mqtt.ConnectOption) (bool, error) {
 	panic("unused")
 }
-func (c *c13Client) Disconnect(vctx.Context) error               { panic("unused") }
-func (c *c13Client) Publish(vctx.Context, *mqtt.Message) error   { panic("unused") }
-func (c *c13Client) Unsubscribe(vctx.Context, ...string) error   { panic("unused") }
-func (c *c13Client) Handle(mqtt.Handler)                         { panic("unused") }
+func (c *c13Client) Disconnect(vctx.Context) error             { panic("unused") }
+func (c *c13Client) Publish(vctx.Context, *mqtt.Message) error { panic("unused") }
+func (c *c13Client) Unsubscribe(vctx.Context, ...string) error { panic("unused") }
+func (c *c13Client) Handle(mqtt.Handler)                       { panic("unused") }
 func (c *c13Client) Subscribe(vctx.Context, ...mqtt.Subscription) ([]mqtt.Subscription, error) {
 	panic("unused")
 }
@@ -301,15 +301,25 @@ func c13Reconnecting(c *Ctx) {
 	}
 	c.Bound("reconnecting", fmt.Sprintf("ReconnectClient with PingInterval %v, Timeout %v, no ResponseTimeout; the broker goes silent for good (link stays up) at any client packet (CONNECT, PINGREQ, PUBLISH, ...), F<=%d; workloads: idle, one publish, a publish after 15 s, subscribe + QoS 2 publish after 15 s; S<=1; exact virtual time", interval, timeout, f))
 	var sample *rcRun
-	for wi, reqs := range wls {
+	for wi0, reqs := range append(wls, wls[0], wls[1]) {
 		reqs := reqs
+		wi := wi0
+		// the last two runs configure keep-alive only through the CONNECT option WithKeepAlive(10):
+		// the ping interval and the response timeout must default to it
+		viaOption := wi0 >= len(wls)
 		var r *rcRun
 		sc := &vrt.Scenario{
-			Name:  fmt.Sprintf("C13/reconnecting/w%d/%s", wi, rcName(reqs)),
+			Name:  fmt.Sprintf("C13/reconnecting/w%d/viaKeepAliveOption=%v/%s", wi, viaOption, rcName(reqs)),
 			Bound: vrt.Budget{F: f, S: 1},
 			Cfg:   vrt.Config{Horizon: int64(75 * time.Second)},
 			Body: func() {
-				rcExecuteInto(&rcCfg{Reqs: reqs, Faults: faults, KeepSession: true, PingInterval: interval, ConnTimeout: timeout}, &r)
+				timeout := timeout
+				if viaOption {
+					timeout = interval // Timeout defaults to the ping interval
+					rcExecuteInto(&rcCfg{Reqs: reqs, Faults: faults, KeepSession: true, KeepAliveOpt: 10}, &r)
+				} else {
+					rcExecuteInto(&rcCfg{Reqs: reqs, Faults: faults, KeepSession: true, PingInterval: interval, ConnTimeout: timeout}, &r)
+				}
 				if !r.connectOK {
 					return
 				}
